@@ -38,6 +38,7 @@ func runC06(ctx *core.Ctx) {
 		"history invariance: in-process re-run for every case; fresh child process per first-row order for the 'hist' sample",
 	)
 	c06Expr(ctx)
+	c06StrOrd(ctx)
 	c06Func(ctx)
 	c06Hist(ctx)
 	c06Order(ctx)
@@ -771,6 +772,47 @@ func c6Describe(o c6Out, mode string) string {
 	return fmt.Sprintf("%#v", o.Res["r"])
 }
 
+// c6TextInNumericContext reports whether, on this row, a text or boolean value is an operand of arithmetic, of a
+// unary minus, or of a comparison whose other operand is a number: the one situation in which the engine's
+// evaluators are known to coerce differently (see the text/bool arithmetic findings).
+func c6TextInNumericContext(n *c6Node, row Row) bool {
+	found := false
+	tb := func(x *c6Node) bool { v := c6Eval(x, row); return v.k == 's' || v.k == 'b' || v.k == '?' }
+	num := func(x *c6Node) bool { v := c6Eval(x, row); return v.k == 'n' }
+	n.walk(func(m *c6Node) {
+		switch m.K {
+		case c6Arith:
+			if tb(m.Args[0]) || tb(m.Args[1]) {
+				found = true
+			}
+		case c6Neg:
+			if tb(m.Args[0]) {
+				found = true
+			}
+		case c6Cmp:
+			if (tb(m.Args[0]) && num(m.Args[1])) || (tb(m.Args[1]) && num(m.Args[0])) {
+				found = true
+			}
+			// booleans have no order: < <= > >= over a boolean operand needs the same coercion to a number
+			if m.Op == "<" || m.Op == "<=" || m.Op == ">" || m.Op == ">=" {
+				if c6Eval(m.Args[0], row).k == 'b' || c6Eval(m.Args[1], row).k == 'b' {
+					found = true
+				}
+			}
+		case c6Call:
+			// numeric functions over a text / boolean argument (abs(s), mod(t, 2), ...)
+			if m.T == 'N' {
+				for _, a := range m.Args {
+					if a.T == 'N' && tb(a) {
+						found = true
+					}
+				}
+			}
+		}
+	})
+	return found
+}
+
 func c6ReportInv(rp *c6Reporter, va, vb c6Variant, row Row, ca, cb string, rota, rotb int) {
 	a := va.AST
 	kind := "invariance.layout"
@@ -778,7 +820,7 @@ func c6ReportInv(rp *c6Reporter, va, vb c6Variant, row Row, ca, cb string, rota,
 		kind = "invariance.site"
 	}
 	rp.violate(kind, map[string]string{"a": va.Name, "b": vb.Name, "layout": vb.Layout.Name, "root": a.rootTag(), "features": a.features(),
-		"row": c6RowShape(a, row, rp.g.base)},
+		"row": c6RowShape(a, row, rp.g.base), "numeric_context_over_text_or_bool": yesNo(c6TextInNumericContext(a, row))},
 		fmt.Sprintf("same expression, same row, different result (the reference leaves this row's value open, the renderings must still agree)\n  A [%s, rows rotated by %d]: %s → %s\n  B [%s, rows rotated by %d]: %s → %s\n  row %s",
 			va.Name, rota, va.sql(), ca, vb.Name, rotb, vb.sql(), cb, c6RowString(row)), vb.sql(), c6RowString(row), "")
 }
